@@ -1092,6 +1092,17 @@ func main() {
 		replay(os.Args[2])
 		return
 	}
+	if len(os.Args) > 2 && os.Args[1] == "reuse" {
+		k, _ := strconv.Atoi(os.Args[2])
+		out := bufio.NewWriterSize(os.Stdout, 1<<20)
+		defer out.Flush()
+		enc := json.NewEncoder(out)
+		r := gen.FromEnv(1113)
+		for i := 0; i < k; i++ {
+			_ = enc.Encode(genReuseCase(r.Fork(), i))
+		}
+		return
+	}
 	if len(os.Args) > 2 && os.Args[1] == "alt" {
 		k, _ := strconv.Atoi(os.Args[2])
 		out := bufio.NewWriterSize(os.Stdout, 1<<20)
